@@ -11,7 +11,7 @@ func init() { propChecks["C06"] = checkC06 }
 const c06Today = "2021/01/25"
 
 var c06Window = []string{"2021/01/23", "2021/01/24", "2021/01/25", "2021/01/26", "2021/01/27"}
-var c06Boundary = []string{"2021/01/18", "2021/01/17", "2020/12/26", "2020/12/25"}
+var c06Boundary = []string{"2021/01/18", "2021/01/17", "2020/12/26", "2020/12/25", "2020/01/25"} // the last one: today's day and month, another year
 var c06Keywords = map[string]string{"today": "2021/01/25", "yesterday": "2021/01/24", "last7": "2021/01/18", "last30": "2020/12/26"}
 var c06KeywordList = []string{"today", "yesterday", "last7", "last30"}
 
